@@ -7,8 +7,10 @@ struct-literal shorthand, or make the crate fail to compile are left alone (comp
 the offending names dropped, a few rounds). Used to grow the benign corpus: no check may react to it."""
 import os, re, shutil, subprocess, sys, tempfile
 
-out = sys.argv[1]
-files = sys.argv[2:]
+argv = [a for a in sys.argv[1:] if not a.startswith("--")]
+WIDE = "--wide" in sys.argv      # also parameters, pattern bindings and names that coincide with field names
+out = argv[0]
+files = argv[1:]
 base = tempfile.mkdtemp(prefix="rnl-")
 repo = os.path.join(base, "repo")
 subprocess.check_call(["rsync", "-a", "--exclude", "target", "--exclude", ".git", "/repo/", repo + "/"])
@@ -27,12 +29,27 @@ def candidates(src):
             if re.fullmatch(r"[a-z_][a-z0-9_]*", part):
                 short.add(part)
     fmt = set(re.findall(r"\{([a-z_][a-z0-9_]*)(?::[^}]*)?\}", src))
+    if WIDE:
+        # parameters `name: Type` inside fn signatures, closure parameters, for/pattern bindings
+        for sig in re.findall(r"\bfn\s+\w+\s*(?:<[^{;]*?>)?\s*\(([^{;]*?)\)\s*(?:->|where|\{|;)", src, re.S):
+            names |= set(re.findall(r"(?:^|[,(]\s*)(?:mut\s+)?([a-z_][a-z0-9_]*)\s*:", sig))
+        names |= set(re.findall(r"\bfor\s+([a-z_][a-z0-9_]*)\s+in\b", src))
+        names |= set(re.findall(r"\b(?:Some|Ok|Err)\((?:mut\s+)?([a-z_][a-z0-9_]*)\)\s*(?:=>|=)", src))
+        names |= set(re.findall(r"\|\s*([a-z_][a-z0-9_]*)\s*\|", src))
+        names -= KEYWORDS
+        return {n for n in names if n not in short and n not in fmt and len(n) > 1 and n not in ("self", "super", "crate")}
     return {n for n in names if n not in fields and n not in short and n not in fmt and len(n) > 1}
 
 
 def rename(src, names):
     for n in sorted(names, key=len, reverse=True):
-        src = re.sub(r"(?<![A-Za-z0-9_$])(?<!(?<!\.)\.)%s(?![A-Za-z0-9_!(])" % re.escape(n), n + "_r", src)
+        if WIDE:
+            # not a field access / method (`.name`), not a field initialiser or struct-pattern key (`name:` but not `name::`)
+            src = re.sub(r"(?<![A-Za-z0-9_$])(?<!(?<!\.)\.)%s(?![A-Za-z0-9_!(])(?!\s*:(?!:))" % re.escape(n), n + "_r", src)
+            # parameters are `name: Type` inside signatures: rename those declarations too
+            src = re.sub(r"(?<=[(,])(\s*(?:mut\s+)?)%s(\s*:(?!:))" % re.escape(n), r"\1%s_r\2" % n, src)
+        else:
+            src = re.sub(r"(?<![A-Za-z0-9_$])(?<!(?<!\.)\.)%s(?![A-Za-z0-9_!(])" % re.escape(n), n + "_r", src)
     return src
 
 
